@@ -492,6 +492,9 @@ def _tree_seed(env, cfg):
         changed = _import_side_effects()
         env.claim('importing_the_library_leaves_process_wide_state_alone', not changed,
                   detail=f"changed by `import ixai` (before, after): {changed}")
+        diff = _first_and_second_object_in_a_process()
+        env.claim('first_and_second_default_TreeStorage_of_a_process_replay_alike', not diff,
+                  detail=f"identically seeded, first vs second object in a fresh interpreter (first, second): {diff}")
         del RESEEDS[:]
         env.claim('construction_leaves_the_global_generators_reproducible', _states_after_construction() == _states_after_construction(),
                   detail='after seeding both global generators identically and constructing TreeStorage(), TreeImputer and the '
@@ -528,6 +531,30 @@ def _import_side_effects():
     r = subprocess.run([sys.executable, '-c', code], capture_output=True, text=True, timeout=600)
     if r.returncode != 0:
         raise HarnessError(f"import probe failed: {r.stderr[-400:]}")
+    return json.loads(r.stdout.strip().splitlines()[-1])
+
+
+def _first_and_second_object_in_a_process():
+    """fresh interpreter: seed both generators, build a default TreeStorage, note learner seeds and generator states; seed
+    again identically, build a second one: same seeds, same states (the first object of a process is not special)"""
+    import json
+    import subprocess
+    import sys
+    code = (
+        "import json, random, warnings, numpy as np\n"
+        "warnings.simplefilter('ignore')\n"
+        "from ixai.storage.tree_storage import TreeStorage\n"
+        "def one():\n"
+        "    random.seed(11); np.random.seed(11)\n"
+        "    ts = TreeStorage(cat_feature_names=['c1'], num_feature_names=['a'])\n"
+        "    st = np.random.get_state()\n"
+        "    return {'learner_seeds': {k: repr(getattr(m, 'seed', None)) for k, m in ts._storage_x.items()},\n"
+        "            'python_generator': hash(random.getstate()), 'numpy_generator': hash(st[1].tobytes()) ^ st[2]}\n"
+        "a = one(); b = one()\n"
+        "print(json.dumps({k: [a[k], b[k]] for k in a if a[k] != b[k]}))\n")
+    r = subprocess.run([sys.executable, '-c', code], capture_output=True, text=True, timeout=600)
+    if r.returncode != 0:
+        raise HarnessError(f"first/second object probe failed: {r.stderr[-400:]}")
     return json.loads(r.stdout.strip().splitlines()[-1])
 
 
@@ -585,6 +612,9 @@ def _tree_seed_replay(env):
     env.claim('constructors_never_reseed_a_global_generator', not RESEEDS, detail=f"{RESEEDS[:4]}")
     changed = _import_side_effects()
     env.claim('importing_the_library_leaves_process_wide_state_alone', not changed, detail=f"changed by `import ixai` (before, after): {changed}")
+    diff = _first_and_second_object_in_a_process()
+    env.claim('first_and_second_default_TreeStorage_of_a_process_replay_alike', not diff,
+              detail=f"identically seeded, first vs second object in a fresh interpreter (first, second): {diff}")
     a, b = _tree_run({}), _tree_run({})
     env.claim('tree_learners_not_entropy_seeded_by_default', a == b,
               detail='two identically seeded replays of TreeStorage() (default seed) ended with different leaf reservoirs')
@@ -596,4 +626,4 @@ META['explanation'] += ' Structural claims: no generator object, mutable contain
 
 META['explanation'] += ' Replay A is configured with interned literals, replay B with equal-by-value copies of other identity (strings as a parser would produce them): identically configured means equal, not identical.'
 
-META['explanation'] += ' Constructors never call seed() on a global generator; importing the library in a fresh interpreter leaves warning filters, NumPy error state and the generator states unchanged; functools caches are cleared before every path; configurations in which replay B is given the very objects of replay A.'
+META['explanation'] += ' Constructors never call seed() on a global generator; importing the library in a fresh interpreter leaves warning filters, NumPy error state and the generator states unchanged; functools caches are cleared before every path; configurations in which replay B is given the very objects of replay A; in a fresh interpreter the first and the second default TreeStorage, built from identical seeds, get the same learner seeds and leave the same generator states.'
